@@ -8,7 +8,7 @@ import (
 )
 
 func init() {
-	register("C38", []string{"./src/format/..."}, checkC38)
+	register("C38", []string{"./src/format/...", "./src/parse/asp/..."}, checkC38)
 }
 
 func checkC38(p *Prog, r *Report) {
@@ -127,6 +127,55 @@ func checkC38(p *Prog, r *Report) {
 		}
 		r.check(delOK, rule, "slices.Delete(stmts, i+1, i+2) after the merge", p.pos(simp.Pos()), fnName(simp), "exactly statement i+1 is removed, after its arguments were appended", "the statement removed after a merge is not exactly the one whose arguments were appended (or it is removed before): a statement is lost or duplicated")
 		r.check(backwards, rule, "the scan runs from the end towards the start", p.pos(simp.Pos()), fnName(simp), "the index decreases, so a deletion never shifts an unexamined statement", "statements are deleted while scanning forwards: the statement that slides into place is skipped, so runs of three or more subincludes are merged only partly and a second `plz fmt` changes the file again")
+	}
+	// merging consecutive subincludes is only meaning-preserving while subinclude(a, b) is the same as subinclude(a) followed
+	// by subinclude(b): the builtin installs each included file's globals as it goes (SetAll merges CONFIG overlays; copying
+	// all files into one dict first keeps only the last file's CONFIG)
+	if sb := p.Fn("parse/asp", "subinclude"); sb == nil {
+		r.unresolved("E5.multi-arg-subinclude-is-sequential", "asp.subinclude")
+	} else {
+		n, bad := 0, 0
+		for _, l := range sliceRangeLoops(sb) {
+			hasInc := false
+			for b := range l.blocks {
+				for _, i := range b.Instrs {
+					if cc := callCommon(i); cc != nil && strings.HasSuffix(calleeName(cc), "interpreter).Subinclude") {
+						hasInc = true
+					}
+				}
+			}
+			if !hasInc {
+				continue
+			}
+			// innermost loop that contains the Subinclude call
+			inner := true
+			for _, l2 := range sliceRangeLoops(sb) {
+				if l2.header != l.header && l.blocks[l2.header] {
+					for b := range l2.blocks {
+						for _, i := range b.Instrs {
+							if cc := callCommon(i); cc != nil && strings.HasSuffix(calleeName(cc), "interpreter).Subinclude") {
+								inner = false
+							}
+						}
+					}
+				}
+			}
+			if !inner {
+				continue
+			}
+			n++
+			if l.iterationSkips(func(i ssa.Instruction) bool {
+				cc := callCommon(i)
+				return cc != nil && strings.HasSuffix(calleeName(cc), "scope).SetAll")
+			}) {
+				bad++
+			}
+		}
+		if n == 0 {
+			r.unresolved("E5.multi-arg-subinclude-is-sequential", "the loop in asp.subinclude that loads each file")
+		} else {
+			r.check(bad == 0, "E5.multi-arg-subinclude-is-sequential", "subinclude installs each file's globals before loading the next", p.pos(sb.Pos()), fnName(sb), "every iteration that loads a file passes scope.SetAll", "subinclude() collects the globals of all its arguments first and installs them once: each file's CONFIG changes arrive as one `CONFIG` entry, so only the last file's survive - and `plz fmt` rewrites consecutive subinclude statements into exactly that multi-argument form")
+		}
 	}
 recognition:
 	// (4)
